@@ -109,7 +109,7 @@ def _c01_b(tier, seed):
 
 
 PROPS["C01"] = dict(
-    level="proof",
+    level="other",
     functions=["ecdsa.ecdsa.Private_key.sign", "ecdsa.ecdsa.Public_key.verifies", "ecdsa.keys._truncate_and_convert_digest",
                "ecdsa.keys.SigningKey.sign_number", "ecdsa.keys.SigningKey.sign_digest", "ecdsa.keys.VerifyingKey.verify_digest", "ecdsa.util.randrange",
                "ecdsa.keys.SigningKey.sign_digest_deterministic", "ecdsa.keys.SigningKey.sign", "ecdsa.keys.SigningKey.sign_deterministic", "ecdsa.keys.VerifyingKey.verify"],
@@ -222,7 +222,7 @@ PROPS["C16"] = dict(
 
 _EH = "ecdsa.ecdh.ECDH."
 PROPS["C05"] = dict(
-    level="proof",
+    level="other",
     functions=[_EH + f for f in ("_get_shared_secret", "generate_sharedsecret", "generate_sharedsecret_bytes", "load_private_key", "load_received_public_key",
                                  "load_received_public_key_bytes", "load_received_public_key_der", "load_received_public_key_pem",
                                  "load_private_key_bytes", "load_private_key_der", "load_private_key_pem")] + ["ecdsa.util.number_to_string", "ecdsa.util.orderlen",
@@ -241,7 +241,7 @@ def _c14_wrappers(tier, seed):
 
 
 PROPS["C14"] = dict(
-    level="proof",
+    level="other",
     functions=["ecdsa.ecdsa.Signature.recover_public_keys", "ecdsa.keys.VerifyingKey.from_public_key_recovery_with_digest", "ecdsa.keys.VerifyingKey.from_public_key_recovery",
                "ecdsa.ecdsa.Public_key.verifies", "ecdsa.keys._truncate_and_convert_digest",
                "ecdsa.numbertheory.square_root_mod_prime", "ecdsa.numbertheory.inverse_mod"],
